@@ -602,6 +602,8 @@ func (s scenario) options() database.SearchOptions {
 			o.ContextBoosts = map[string]float64{"frobnicate": 2.0, "Frobnicate": 1.2, " widget ": 3, "widget": 1.1, "WIDGET": 2.5, "number": 1.4, "Number": 2.2}
 		case 9: // factors below 1, zero and negative values
 			o.ContextBoosts = map[string]float64{"frobnicate": 0.5, "widget": 0.1, "number": 0, "item": -2}
+		case 10: // values that are not factors at all: negative, not a number (a context analyser gone wrong must not poison the scores)
+			o.ContextBoosts = map[string]float64{"frobnicate": math.NaN(), "widget": -3, "number": -0.5, "item": -40}
 		case 7: // words no command contains (a project type whose vocabulary the database does not know)
 			o.ContextBoosts = map[string]float64{"absentword": 1.5, "zzabsent": 2.0, "qqnowhere": 1.8}
 		default: // docker + go + kubernetes
